@@ -6,6 +6,7 @@ import (
 	"fmt"
 	"os"
 	"path/filepath"
+	"sort"
 	"strings"
 	"sync"
 	"time"
@@ -51,6 +52,10 @@ type retentionWatch struct {
 	problems []string
 	removed  int
 	hwmChk   int
+	svcChk   int
+	// svcPos reports the transaction ID the backup service really holds for a
+	// database (read from the service, not from LiteFS's own high-water mark)
+	svcPos func(name string) (uint64, bool)
 }
 
 func (w *retentionWatch) hook(op, kind, path string) error {
@@ -86,6 +91,14 @@ func (w *retentionWatch) hook(op, kind, path string) error {
 		if hwm := db.HWM(); uint64(maxTXID) >= uint64(hwm) {
 			w.problems = append(w.problems, fmt.Sprintf("retention removes %s of %s although the backup service has only confirmed up to txid %d", filepath.Base(path), name, uint64(hwm)))
 		}
+		if w.svcPos != nil {
+			if have, ok := w.svcPos(name); ok {
+				w.svcChk++
+				if uint64(maxTXID) > have {
+					w.problems = append(w.problems, fmt.Sprintf("retention removes %s of %s although the backup service holds this database only up to txid %d (LiteFS's high-water mark says %d)", filepath.Base(path), name, have, uint64(db.HWM())))
+				}
+			}
+		}
 	}
 	return nil
 }
@@ -103,6 +116,15 @@ func runC09(c *core.Case) {
 		}
 	}
 	watch := &retentionWatch{backup: withBackup}
+	if withBackup {
+		watch.svcPos = func(name string) (uint64, bool) {
+			m, err := bc.PosMap(context.Background())
+			if err != nil {
+				return 0, false
+			}
+			return uint64(m[name].TXID), true
+		}
+	}
 	var gateMu sync.Mutex
 	var gateArmed, gateParked bool
 	gateParkedCh := make(chan struct{}, 1)
@@ -421,7 +443,80 @@ func runC09(c *core.Case) {
 	}
 	converge()
 	checkChains("end")
+	// epilogue with a backup service: the service falls back (it lost its newest
+	// files); the next sync finds the primary ahead of a service that refuses
+	// its upload and adopts the service's copy. From then on the service holds
+	// less than it once confirmed: commits and sweeps that follow must keep every
+	// file the service does not hold, and the next sync must lose nothing.
+	if withBackup && !c.Violated() {
+		name := names[c.Index%2]
+		_ = P.Store.SyncBackup(context.Background())
+		bdir := filepath.Join(c.Dir, "backup", name)
+		var bfiles []string
+		if ents, err := os.ReadDir(bdir); err == nil {
+			for _, e := range ents {
+				if filepath.Ext(e.Name()) == ".ltx" {
+					bfiles = append(bfiles, e.Name())
+				}
+			}
+		}
+		sort.Strings(bfiles)
+		if len(bfiles) >= 2 && P.Store.DB(name) != nil && P.Store.DB(name).PageN() > 0 {
+			cut := 1 + c.Rng.IntN(minInt(2, len(bfiles)-1))
+			for _, f := range bfiles[len(bfiles)-cut:] {
+				_ = os.Remove(filepath.Join(bdir, f))
+			}
+			top := mon.PosOf(P.Node, name)
+			svc, _ := watch.svcPos(name)
+			hist = append(hist, fmt.Sprintf("backup service loses its newest %d files of %s: it holds txid %d, the primary is at %s", cut, name, svc, top))
+			// one commit so that the database is dirty for the sync
+			if w := writers[name]; w != nil {
+				_, _ = w.txn(2)
+			}
+			_ = P.Store.SyncBackup(context.Background())
+			after := mon.PosOf(P.Node, name)
+			hist = append(hist, fmt.Sprintf("backup sync: primary at %s", after))
+			if healthViolations(c, P.Node, "sync after the service fell back", hist) {
+				return
+			}
+			if img, ok := led.get(name, after); ok && after.TXID == svc && after.TXID > 0 {
+				c.Count("backup_fell_back_and_restored", 1)
+				if openWriter(name, img) {
+					w := writers[name]
+					for i := 0; i < 3; i++ {
+						if _, err := w.txn(2); err != nil {
+							healthViolations(c, P.Node, "commit after the restore", hist)
+							if !c.Violated() {
+								c.Violate("C09/setup", "commit after the restore: "+err.Error(), hist)
+							}
+							return
+						}
+						sweep(P)
+					}
+					before := mon.PosOf(P.Node, name)
+					hist = append(hist, fmt.Sprintf("3 commits with sweeps after the restore: primary at %s", before))
+					if !checkChains("sweeps after a restore from a service that fell back") {
+						return
+					}
+					err := P.Store.SyncBackup(context.Background())
+					if healthViolations(c, P.Node, "sync after the sweeps", hist) {
+						return
+					}
+					if now := mon.PosOf(P.Node, name); now != before {
+						c.Violate("C09/sync-lost-transactions", fmt.Sprintf("the backup service held %s up to txid %d, the primary committed up to %s and swept; the next sync (%v) left the primary at %s: committed transactions are gone", name, svc, before, err, now), map[string]any{"history": hist})
+						return
+					}
+					c.Count("sync_after_fallback_kept_position", 1)
+					converge()
+					checkChains("end of the fall-back epilogue")
+				}
+			} else {
+				c.Count("backup_fell_back_other_outcome", 1)
+			}
+		}
+	}
 	watch.mu.Lock()
+	c.Count("removals_checked_against_service", watch.svcChk)
 	c.Count("files_removed_by_retention", watch.removed)
 	c.Count("removals_checked_against_hwm", watch.hwmChk)
 	watch.mu.Unlock()
